@@ -435,3 +435,62 @@ def rand_sched(rng):
 def delete_each(seq):
     for i in reversed(range(len(seq))):
         yield seq[:i] + seq[i + 1:]
+
+
+# --------------------------------------------------------------------------- shared known-finding helpers
+
+NON_ELEMENTWISE = {"mo_smooth": "mo_fn", "bw_centre_on_max": "bw_double", "mb_blockid": "mb_scale", "mb_blockinfo": "mb_scale"}
+
+
+def has_nonelementwise_userfn(case):
+    for s in case["recipe"]["steps"]:
+        a = s["args"]
+        if a.get("fn") in NON_ELEMENTWISE:
+            return True
+        if s["op"] == "userfn" and a.get("kind") == "blockwise" and a.get("raises_on_empty"):
+            return True
+    return False
+
+
+def ablate_userfns(case):
+    """The same case with every non-elementwise user block function replaced by an elementwise one."""
+    rec = dict(case["recipe"])
+    steps = []
+    for s in rec["steps"]:
+        a = dict(s["args"])
+        if a.get("fn") in NON_ELEMENTWISE:
+            a["fn"] = NON_ELEMENTWISE[a["fn"]]
+        if s["op"] == "userfn" and a.get("kind") == "blockwise":
+            a["raises_on_empty"] = False
+        steps.append(dict(s, args=a))
+    rec["steps"] = steps
+    return dict(case, recipe=rec)
+
+
+UNIFY_KEYS = ("array.unify-chunks-policy", "array.unify-chunks-limit")
+
+
+def is_unify_flip(e):
+    return (e["ev"] == "config" and e.get("key") in UNIFY_KEYS) or e["ev"] == "config_refresh"
+
+
+def pre_unify_flip(case, result):
+    return any(is_unify_flip(e) for e in case.get("history", []))
+
+
+def abl_unify_flip(case):
+    return dict(case, history=[e for e in case["history"] if not is_unify_flip(e)])
+
+
+def pre_userfn(case, result):
+    return has_nonelementwise_userfn(case)
+
+
+def pre_generic_driver(case, result):
+    h = case.get("history", [])
+    return any((e["ev"] == "persist" and e.get("entry") == "dask") or e["ev"] == "doptimize" for e in h)
+
+
+def abl_generic_driver(case):
+    return dict(case, history=[dict(e, entry="method") if e["ev"] == "persist" else (dict(e, ev="optimize") if e["ev"] == "doptimize" else e)
+                               for e in case["history"]])
